@@ -254,7 +254,7 @@ Lemma fs_srv_single f : wildcards f = [] -> fs_srv f = [(f, GET, mkopd [] false 
 Proof. intro H. unfold fs_srv. rewrite (no_wild_not_dir _ H). reflexivity. Qed.
 
 Lemma fs_doc3_single r f : wildcards f = [] -> fs_doc3 r f = (f, GET, mkopd [] false [200] r).
-Proof. intro H. unfold fs_doc3, fs_params, fs_stat. rewrite H. reflexivity. Qed.
+Proof. intro H. unfold fs_doc3, fs_params, fs_stat. rewrite H, (norm_fix_l _ (no_wild_star_free _ H)). reflexivity. Qed.
 
 Lemma fs_doc2_single f : wildcards f = [] -> fs_doc2 f = (f, GET, mkopd [] false [200] []).
 Proof. intro H. unfold fs_doc2, fs_params, fs_stat. rewrite H, (norm_fix_l _ (no_wild_star_free _ H)). reflexivity. Qed.
@@ -343,6 +343,59 @@ Lemma doc2_perm d : no_wild_files d -> ~ uses d CONNECT -> ~ uses d TRACE -> NoD
 Proof.
   intros NW NC NT ND. apply NoDup_Permutation; [apply doc_ops_nodup | assumption|].
   intros [v k]. apply doc2_keys; assumption.
+Qed.
+
+(* ---------- without any hypothesis: documented implies mounted, keys are path templates ---------- *)
+
+Lemma norm_app a b : norm (a ++ b) = (norm a ++ norm b)%list.
+Proof. unfold norm. apply map_app. Qed.
+
+(* a file server request path, rewritten, is the rewritten form of one of its mounts *)
+Lemma fs_srv_norm f : exists p o, In (p, GET, o) (fs_srv f) /\ norm p = norm f.
+Proof.
+  unfold fs_srv. destruct (fs_dir f) as [[base n]|] eqn:E.
+  - exists (base ++ [Star n])%list. eexists. split; [right; left; reflexivity|].
+    unfold fs_dir in E. destruct (rev f) as [|x b] eqn:R; [discriminate|].
+    assert (Hf : f = (rev b ++ [x])%list) by (rewrite <- (rev_involutive f), R; reflexivity).
+    destruct x; inversion E; subst base n; rewrite Hf, !norm_app; reflexivity.
+  - exists f. eexists. split; [left; reflexivity | reflexivity].
+Qed.
+
+Lemma assigns3_keys_sub d v k : (exists o, In (k, v, o) (assigns3 d)) -> In (v, k) (map nkey (server_ops d)).
+Proof.
+  rewrite in_server_nkeys. intros [o H]. apply in_assigns3 in H. destruct H as [[e [p [He [H1 [H2 H3]]]]]|[f [Hf E]]].
+  - exists p, (srv_opd e). split; [|auto]. apply in_server_assigns. left. exists e. auto.
+  - unfold fs_doc3 in E. inversion E as [[Ek Ev Eo]]. destruct (fs_srv_norm f) as [p [o' [Hp Hn]]].
+    exists p, o'. split; [|assumption]. apply in_server_assigns. right. exists f. auto.
+Qed.
+
+Lemma assigns2_keys_sub d v k : (exists o, In (k, v, o) (assigns2 d)) -> In (v, k) (map nkey (server_ops d)).
+Proof.
+  rewrite in_server_nkeys. intros [o H]. apply in_assigns2 in H. destruct H as [[e [p [He [H1 [H2 H3]]]]]|[f [Hf E]]].
+  - exists p, (srv_opd e). split; [|auto]. apply in_server_assigns. left. exists e. auto.
+  - unfold fs_doc2 in E. inversion E as [[Ek Ev Eo]]. destruct (fs_srv_norm f) as [p [o' [Hp Hn]]].
+    exists p, o'. split; [|assumption]. apply in_server_assigns. right. exists f. auto.
+Qed.
+
+Lemma doc3_sub d v k : In (v, k) (map okey (doc3_ops d)) -> In (v, k) (map nkey (server_ops d)).
+Proof. unfold doc3_ops, doc3. rewrite (doc_ops_key _ v3_sound). intros [H _]. apply assigns3_keys_sub. assumption. Qed.
+
+Lemma doc2_sub d v k : In (v, k) (map okey (doc2_ops d)) -> In (v, k) (map nkey (server_ops d)).
+Proof. unfold doc2_ops, doc2. rewrite (doc_ops_key _ v2_sound). intros [H _]. apply assigns2_keys_sub. assumption. Qed.
+
+(* every path key of either document is a path template: no {*name} *)
+Lemma doc3_star_free d v k : In (v, k) (map okey (doc3_ops d)) -> star_free k = true.
+Proof.
+  unfold doc3_ops, doc3. rewrite (doc_ops_key _ v3_sound). intros [[o H] _]. apply in_assigns3 in H.
+  destruct H as [[e [p [_ [_ [-> _]]]]]|[f [_ E]]]; [apply norm_star_free_l|].
+  unfold fs_doc3 in E. inversion E. apply norm_star_free_l.
+Qed.
+
+Lemma doc2_star_free d v k : In (v, k) (map okey (doc2_ops d)) -> star_free k = true.
+Proof.
+  unfold doc2_ops, doc2. rewrite (doc_ops_key _ v2_sound). intros [[o H] _]. apply in_assigns2 in H.
+  destruct H as [[e [p [_ [_ [-> _]]]]]|[f [_ E]]]; [apply norm_star_free_l|].
+  unfold fs_doc2 in E. inversion E. apply norm_star_free_l.
 Qed.
 
 (* ---------- corresponding operations: parameters, body, status codes, schemes ---------- *)
@@ -584,13 +637,14 @@ Qed.
 Lemma dir_refuted_l :
   exists d, ~ uses d CONNECT /\ ~ no_wild_files d /\
     (exists k, In k (map nkey (server_ops d)) /\ ~ In k (map okey (doc3_ops d)) /\ ~ In k (map okey (doc2_ops d))) /\
-    (exists k, In k (map okey (doc3_ops d)) /\ ~ In k (map nkey (server_ops d)) /\ star_free (snd k) = false).
+    (* the other mount, GET <dir>/{*name}, is documented by both under its rewritten form *)
+    (exists k, In k (map nkey (server_ops d)) /\ In k (map okey (doc3_ops d)) /\ In k (map okey (doc2_ops d)) /\ star_free (snd k) = true).
 Proof.
   exists w_dir. split; [|split; [|split]].
   - intros [o [H E]]. vm_compute in H. destruct H as [<-|[<-|[<-|[]]]]; discriminate E.
   - intro NW. assert (H : wildcards [Lit 1; Star 2] = []) by (apply NW; exists (mks [plain_ep GET [Lit 3]] [mkf [[Lit 1; Star 2]]]); split; [left; reflexivity | left; reflexivity]). discriminate H.
   - exists (GET, [Lit 1; Lit 0]). split; [vm_compute; auto | split; not_in].
-  - exists (GET, [Lit 1; Star 2]). split; [vm_compute; auto | split; [not_in | reflexivity]].
+  - exists (GET, [Lit 1; Var 2]). split; [vm_compute; auto | split; [vm_compute; auto | split; [vm_compute; auto | reflexivity]]].
 Qed.
 
 Lemma reqdef_refuted_l :
